@@ -50,7 +50,7 @@ VERIF = Path(__file__).resolve().parent.parent
 COQ = VERIF / "coq"
 WORK = VERIF / ".work"
 EVID = VERIF / "evidence"
-REPLAY = EVID / "replay"
+REPLAY = Path(os.environ["VERIF_REPLAY_DIR"]) if os.environ.get("VERIF_REPLAY_DIR") else EVID / "replay"
 REPO = os.environ.get("PERSIM_REPO", "/repo")
 PY = os.environ.get("PERSIM_PY", "/venv/bin/python")
 GUARD = "PERSIM_VERIF"
